@@ -41,6 +41,8 @@ def check(ctx, tier):
     column_range_bounds(ctx, tk)
     col_sum(ctx, tk)
     first_match(ctx, "C17.l", ctx.func(RR + "argmax"))
+    rebuilds_forward_geometry(ctx, tk)
+    selected_rows_are_the_subject(ctx, tk)
     from ..coherence import Coherence, report
     coh = ctx.cached("coherence", lambda: Coherence(tk))
     report(coh, "C17.m", funcs=[q for q in ctx.program.funcs if q.startswith((R2, RR, IM)) or q == "runlengtharray.rlra_concatenate"])
@@ -338,3 +340,62 @@ def first_match(ctx, rule, f):
                         done = True
     if not done:
         ctx.unknown(rule, f, what, "group selection not recognised", engine="KB")
+
+
+def rebuilds_forward_geometry(ctx, tk):
+    """E6 sibling agreement: a method that rebuilds its own class from self's boundaries hands every geometry field on.
+    RunLength2dArray(indices, values, row_len): a rebuild without row_len makes a fixed-width array forget its width"""
+    init = ctx.func(R2 + "__init__")
+    if "row_len" not in init.params:
+        return
+    pos = init.params.index("row_len") - 1
+    for q, f in sorted(ctx.program.funcs.items()):
+        if not q.startswith(R2) or f.cls is None or not f.params:
+            continue
+        fa = ctx.fa(f)
+        selfn = f.params[0]
+        calls = [(n, c) for n, c in find_calls(fa, lambda c: c.a[0].k == "attr" and c.a[0].a[1] == "__class__" and attr_chain(c.a[0]) and attr_chain(c.a[0])[0] == selfn
+                                              and c.a[1] and attr_chain(c.a[1][0]) == (selfn, "_indices"))]
+        for n, c in calls:
+            arg = dict(c.a[2]).get("row_len", c.a[1][pos] if len(c.a[1]) > pos else None)
+            ok = arg is not None and any((attr_chain(x) or ("",))[-1] == "_row_len" for x in walk(arg))
+            ctx.decide("C17.n", f, "a result rebuilt over self's own boundaries keeps self's row width", True if ok else (False if arg is None else None),
+                       "`%s` drops the row width: the result of a fixed-width array reports shape (n, None) and its last runs can no longer be decoded or reduced" % (c,),
+                       node=c.node, key="row_len:%d" % getattr(n, "lineno", 0), engine="E6")
+
+
+def selected_rows_are_the_subject(ctx, tk):
+    """in the (rows, columns) path the column work is done on the row-selected object; boundaries read from `self`
+    there belong to other rows as soon as the selector reorders, repeats or drops rows"""
+    f = ctx.func(IM + "_getitem_tuple")
+    fa = ctx.fa(f)
+    selfn = f.params[0]
+    sel = [n for n in fa.cfg.stmts() if n.kind == "stmt" and isinstance(n.ast, ast.Assign) and isinstance(n.ast.targets[0], ast.Name)
+           and isinstance(n.ast.value, ast.Subscript) and isinstance(n.ast.value.value, ast.Name) and n.ast.value.value.id == selfn]
+    what = "after the row selection, column bounds and run boundaries are read from the selected rows, not from self"
+    if not sel:
+        ctx.unknown("C17.n", f, what, "row selection statement not recognised", engine="E2")
+        return
+    bad = []
+    n_reads = 0
+    for n in fa.cfg.stmts():
+        if n in sel or not any(fa.cfg.dominates(s, n) for s in sel) or n.ast is None:
+            continue
+        from ..resolve import _exprs_of_node
+        doms = [s_ for s_ in sel if fa.cfg.dominates(s_, n)]
+        row_sels = {ast.unparse(s_.ast.value.slice) for s_ in doms}
+        for e in _exprs_of_node(n):
+            # self._indices[<the row selector>] is the row selection itself, spelled out
+            reselect = {id(x.value) for x in ast.walk(e) if isinstance(x, ast.Subscript) and isinstance(x.value, ast.Attribute) and ast.unparse(x.slice) in row_sels}
+            for x in ast.walk(e):
+                if isinstance(x, ast.Attribute) and x.attr in ("_indices", "_values", "_row_len", "shape") and isinstance(x.value, ast.Name):
+                    n_reads += 1
+                    if x.value.id == selfn and x.attr != "_row_len" and id(x) not in reselect:
+                        bad.append((n, x))
+    if bad:
+        n, x = bad[0]
+        dom = [s_ for s_ in sel if fa.cfg.dominates(s_, n)]
+        ctx.violated("C17.n", f, what, "`%s` is read after `%s`: with a selector that reorders or repeats rows the bound of another row is used" % (
+            ast.unparse(x), ast.unparse((dom or sel)[0].ast)), node=n.ast, key="stale-receiver", engine="E2")
+    else:
+        ctx.decide("C17.n", f, what, True if n_reads else None, key="stale-receiver", engine="E2")
